@@ -273,7 +273,7 @@ def rec_make(t: TRec, vals: dict) -> V:
 def forall(vars_, body, rng=None):
     """Universal quantifier; in bounded (refutation) mode expand over 0..BOUND."""
     b = MODE["bounded"]
-    if b is None:
+    if b is None or any(v.sort() != z3.IntSort() for v in vars_):
         return z3.ForAll(vars_, body)
     import itertools
     insts = []
@@ -284,7 +284,7 @@ def forall(vars_, body, rng=None):
 
 def exists(vars_, body):
     b = MODE["bounded"]
-    if b is None:
+    if b is None or any(v.sort() != z3.IntSort() for v in vars_):
         return z3.Exists(vars_, body)
     import itertools
     insts = []
